@@ -94,6 +94,12 @@ theorem file_name_with_info_decode_encode (f : FileNameWithInfo) (h : f.WF) :
     FileNameWithInfo.decode f.encode = .ok f ∧ f.encode.length = 20 + f.name.length :=
   ⟨FileNameWithInfo.decode_encode' f h, FileNameWithInfo.encode_length f h⟩
 
+/-- Resume data (field 203): `UnmarshalBinary` of `BinaryMarshal` output yields the fork list
+    (fork count is one byte: fewer than 256 forks). -/
+theorem resume_decode_encode (forks : List ForkInfo) (h : ∀ f ∈ forks, f.WF) (hn : forks.length < 256) :
+    resumeDecode (resumeEncode forks) = .ok forks :=
+  resumeDecode_encode forks h hn
+
 /-- The emitted bytes do not depend on the sizes of the buffers the encoder is drained through,
     and emission terminates: for *every* script of buffer sizes ≥ 1 with at least |bytes|+1
     entries the drained output is exactly the layout and the last call reports EOF. -/
@@ -146,6 +152,7 @@ example : pathDecode (pathEncode [[100, 105, 114], [115, 117, 98]]) = .ok [[100,
 example : User.decode (User.encode ⟨1, 2, 3, [65, 66]⟩) = .ok (⟨1, 2, 3, [65, 66]⟩, 10) := by decide
 example : (⟨[84, 69, 88, 84], [116, 116, 120, 116], 5, [0, 0, 0, 0], 0, [97, 46, 116]⟩ : FileNameWithInfo).WF := by
   simp [FileNameWithInfo.WF]
+example : resumeDecode (resumeEncode [⟨[68, 65, 84, 65], 256⟩]) = .ok [⟨[68, 65, 84, 65], 256⟩] := by decide
 example : drain [1, 2, 3, 4, 5] [2, 1, 1, 7, 1, 1] 0 = ⟨[1, 2, 3, 4, 5], 5, true⟩ := by decide
 
 end Mobius.C01
